@@ -114,6 +114,12 @@ def judge(name, base, mut):
     buf = mutate(base, mut)
     if buf == base:
         return None
+    # history: the intact file is loaded first in the same process (a parser that remembers what it has already
+    # verified must still reject the corrupted copy); replay() goes through here too, so the history is part of every witness
+    try:
+        dex.DEX(base)
+    except Exception:      # noqa  (reported by run_shard's sanity check)
+        pass
     _probe["n"] = 0
     try:
         dex.DEX(buf)
